@@ -75,6 +75,26 @@ def run(ctx):
             if t[0][0] == "Proc":
                 deep.append("bodymemo" + prog.wire(t[2:-1], per_line=12)[5:])
                 ctx.count("tower-deep")
+    # LONG bodies: many statements whose alternatives share memoised sub-parsers (call chains as statements, call chains as
+    # assignment targets, calls in operands) — the memo tables of ONE body collect thousands of entries
+    T = prog.T
+    I = lambda s: T("Identifier", s)
+    for nst, pad in [(n, p) for n in ((450,) if q else (450, 1500, 3000)) for p in range(12 if q else 24)]:
+        for shape in range(3 if pad == 0 else 1):
+            # `pad` plain statements first: shifts where in a statement a table reaches any given size
+            b = [I("x"), T("Equals", "="), T("NumericLiteral", "1")] * pad
+            for i in range(nst):
+                k = (i + shape) % 3
+                if k == 0:     # a.f(x).g(y)
+                    b += [I("a"), T("Dot", "."), I("f"), T("OBracket"), I("x"), T("CBracket"), T("Dot", "."), I("g"), T("OBracket"), I("y"), T("CBracket")]
+                elif k == 1:   # f(1).v = g(2)
+                    b += [I("f"), T("OBracket"), T("NumericLiteral", "1"), T("CBracket"), T("Dot", "."), I("v"), T("Equals", "="),
+                          I("g"), T("OBracket"), T("NumericLiteral", "2"), T("CBracket")]
+                else:          # x = f(a, b) + g(c)
+                    b += [I("x"), T("Equals", "="), I("f"), T("OBracket"), I("a"), T("Comma", ","), I("b"), T("CBracket"), T("Plus", "+"),
+                          I("g"), T("OBracket"), I("c"), T("CBracket")]
+            deep.append("bodymemo" + prog.wire(b, per_line=11)[5:])
+            ctx.count("long-body")
     ideep = ctx.run_harness("bodymemo", deep, timeout=600)
     mdeep = ctx.run_driver(deep, timeout=600)
     ctx.compare("bodymemo(towers)", deep, ideep, mdeep)
